@@ -359,6 +359,8 @@ pub enum PEv {
     Error(ErrSpec),
     /// exact response bytes (terminating newline included), followed by a flush
     Response(Vec<u8>),
+    /// some non-empty, newline-terminated response (SYSTem:VERSion?: the value is not specified)
+    AnyResponse,
     /// response of SYSTem:ERRor[:NEXT]? / COUNt?, computed from the queue model while matching
     ErrNext,
     ErrCount,
@@ -402,7 +404,7 @@ pub fn predict(model: &Model, msgs: &[Message], kinds: Option<&[Vec<UnitKind>]>,
                 }
                 Some(Target::StdVersion) => {
                     if u.args.is_empty() {
-                        out.push(PEv::Response(b"1999.0\n".to_vec()));
+                        out.push(PEv::AnyResponse);
                     }
                     else {
                         out.push(PEv::Error(ErrSpec::Any));
@@ -506,7 +508,12 @@ pub fn items(log: &[Ev]) -> Vec<Item> {
     for e in log {
         match e {
             Ev::Write(b) => pending.get_or_insert_with(Vec::new).extend_from_slice(b),
-            Ev::Flush => out.push(Item::R(pending.take().unwrap_or_default())),
+            // a flush with nothing pending writes nothing and is not an observable response
+            Ev::Flush => {
+                if let Some(p) = pending.take() {
+                    out.push(Item::R(p));
+                }
+            }
             Ev::Handler { id, args } => {
                 if let Some(p) = pending.take() {
                     out.push(Item::Unflushed(p));
@@ -669,6 +676,34 @@ fn rec_inner(
                     return false;
                 }
             },
+            PEv::AnyResponse => {
+                // only usable when responses are observed individually
+                if cfg.responses_in_log {
+                    match obs.get(oi) {
+                        Some(Item::R(b)) if b.len() > 1 && b.last() == Some(&b'\n') => {
+                            out.extend_from_slice(b);
+                            oi += 1;
+                        }
+                        other => {
+                            note(best, oi, format!("expected a response, observed {:?}", other));
+                            return false;
+                        }
+                    }
+                }
+                else {
+                    // concatenated output: take everything up to the next newline
+                    let observed = cfg.output.as_deref().unwrap_or(&[]);
+                    let rest = &observed[out.len().min(observed.len())..];
+                    match rest.iter().position(|b| *b == b'\n') {
+                        Some(p) if p > 0 => out.extend_from_slice(&rest[..=p]),
+                        _ => {
+                            note(best, oi, "expected a response in the output".to_string());
+                            return false;
+                        }
+                    }
+                }
+                pi += 1;
+            }
             PEv::Response(_) | PEv::ErrNext | PEv::ErrCount => {
                 let bytes = match &pred[pi] {
                     PEv::Response(b) => b.clone(),
